@@ -40,8 +40,9 @@ def one_char(node):
 
 
 class Fn:
-    def __init__(self, known):
+    def __init__(self, known, tables=()):
         self.known = known        # name -> (argtypes, rettype) of functions translated so far
+        self.tables = set(tables)  # module-level sets of strings available in Generated/Tables.v
         self.types = {}
 
     def ann(self, node):
@@ -71,6 +72,26 @@ class Fn:
             if ta == tb == "str":
                 return f"({a} ++ {b})", "str"
             raise Untranslatable("+ on " + ta + "/" + tb)
+        if isinstance(e, ast.JoinedStr):
+            parts = []
+            for v in e.values:
+                if isinstance(v, ast.Constant):
+                    parts.append(lit(v.value))
+                elif isinstance(v, ast.FormattedValue) and v.conversion == -1 and v.format_spec is None:
+                    t, tt = self.expr(v.value)
+                    if tt != "str":
+                        raise Untranslatable("f-string field of type " + tt)
+                    parts.append(t)
+                else:
+                    raise Untranslatable("f-string " + ast.unparse(e))
+            return "(" + " ++ ".join(parts or ["[]"]) + ")", "str"
+        if isinstance(e, ast.IfExp):
+            c = self.cond(e.test)
+            a, ta = self.expr(e.body)
+            b, tb = self.expr(e.orelse)
+            if ta != tb:
+                raise Untranslatable("branches of different types: " + ast.unparse(e))
+            return f"(if {c} then {a} else {b})", ta
         if isinstance(e, ast.Subscript):
             v, tv = self.expr(e.value)
             s = e.slice
@@ -107,6 +128,21 @@ class Fn:
         """a condition: returns Coq bool text"""
         if isinstance(e, ast.Compare) and len(e.ops) == 1:
             op, l, r = e.ops[0], e.left, e.comparators[0]
+            # x[:k] == "lit" / != : comparison of a prefix (slicing never raises)
+            if isinstance(op, (ast.Eq, ast.NotEq)) and isinstance(l, ast.Subscript) and isinstance(l.slice, ast.Slice) \
+                    and l.slice.lower is None and l.slice.step is None and isinstance(l.slice.upper, ast.Constant) \
+                    and isinstance(l.slice.upper.value, int) and l.slice.upper.value >= 0 and isinstance(r, ast.Constant):
+                v, tv = self.expr(l.value)
+                if tv != "str":
+                    raise Untranslatable("prefix of " + tv)
+                t = f"(str_eqb (firstn {l.slice.upper.value} {v}) {lit(r.value)})"
+                return t if isinstance(op, ast.Eq) else f"(negb {t})"
+            # x in TABLE for a module-level set of strings regenerated in Generated/Tables.v
+            if isinstance(op, ast.In) and isinstance(r, ast.Name) and r.id in self.tables:
+                v, tv = self.expr(l)
+                if tv != "str":
+                    raise Untranslatable("membership of " + tv)
+                return f"(existsb (str_eqb {v}) {r.id})"
             if isinstance(op, (ast.Eq, ast.NotEq)):
                 a, ta = self.expr(l)
                 b, tb = self.expr(r)
@@ -114,6 +150,10 @@ class Fn:
                     t = f"(str_eqb {a} {b})"
                     return t if isinstance(op, ast.Eq) else f"(negb {t})"
             raise Untranslatable("comparison " + ast.unparse(e))
+        if isinstance(e, ast.BoolOp) and not self.guarded_index(e):
+            parts = [self.cond(v) for v in e.values]
+            op = " && " if isinstance(e.op, ast.And) else " || "
+            return "(" + op.join(parts) + ")"
         if isinstance(e, ast.BoolOp) and isinstance(e.op, ast.And) and len(e.values) == 2:
             g, c = e.values
             # x and x[0] == "c"     /     xs and xs[-1] in ("a", "b")
@@ -134,6 +174,15 @@ class Fn:
         if isinstance(e, ast.Name) and self.types.get(e.id) in ("str", "strlist"):
             return f"(match {e.id} with [] => false | _ => true end)"
         raise Untranslatable("condition " + ast.unparse(e))
+
+    def guarded_index(self, e):
+        """x and x[0] == "c"  /  xs and xs[-1] in (...): the index is guarded by the truth of the same name"""
+        if not (isinstance(e.op, ast.And) and len(e.values) == 2):
+            return False
+        g, c = e.values
+        return (isinstance(g, ast.Name) and isinstance(c, ast.Compare) and isinstance(c.left, ast.Subscript)
+                and isinstance(c.left.value, ast.Name) and c.left.value.id == g.id
+                and not isinstance(c.left.slice, ast.Slice))
 
     # ---- mutation of an accumulator inside a loop / if body: returns new value text
     def mutation(self, st, acc):
@@ -168,6 +217,48 @@ class Fn:
         else:
             f = self.branch(node.orelse, acc)
         return f"(if {c} then {t} else {f})"
+
+    def assign_chain_var(self, node):
+        """the single variable assigned (once per branch) by every branch of an if/elif/else chain, or None"""
+        names = set()
+        cur = node
+        while True:
+            body = cur.body
+            for b in body:
+                if not (isinstance(b, (ast.Assign, ast.If))):
+                    return None
+            for b in ast.walk(cur):
+                if isinstance(b, ast.Assign):
+                    if len(b.targets) != 1 or not isinstance(b.targets[0], ast.Name):
+                        return None
+                    names.add(b.targets[0].id)
+                elif isinstance(b, (ast.AugAssign, ast.AnnAssign, ast.For, ast.While, ast.With, ast.Return, ast.Call)) \
+                        and not isinstance(b, ast.Call):
+                    return None
+            break
+        if len(names) != 1:
+            return None
+        n = names.pop()
+        return n if n in self.types else None
+
+    def assign_chain(self, node, n):
+        """value of variable n after the chain (n itself where a branch is missing)"""
+        def block(stmts):
+            if not stmts:
+                return n
+            if len(stmts) != 1:
+                raise Untranslatable("one statement per branch expected")
+            b = stmts[0]
+            if isinstance(b, ast.Assign):
+                v, tv = self.expr(b.value)
+                if tv != self.types[n]:
+                    raise Untranslatable("type change of " + n)
+                return v
+            if isinstance(b, ast.If):
+                return self.assign_chain(b, n)
+            raise Untranslatable("statement " + ast.unparse(b)[:60])
+        c = self.cond(node.test)
+        return f"(if {c} then {block(node.body)} else {block(node.orelse)})"
 
     def mutated(self, node):
         names = set()
@@ -222,6 +313,9 @@ class Fn:
                 step = self.chain(st.body[0], acc)
                 del self.types[st.target.id]
                 lets.append(f"let {acc} : list str := fold_left (fun ({acc} : list str) ({st.target.id} : str) => {step}) {it} {acc} in")
+            elif isinstance(st, ast.If) and st.orelse and self.assign_chain_var(st):
+                n = self.assign_chain_var(st)
+                lets.append(f"let {n} : {self.coq_type(self.types[n])} := {self.assign_chain(st, n)} in")
             elif isinstance(st, ast.If) and not st.orelse:
                 c = self.cond(st.test)
                 names, vals = [], []
@@ -267,14 +361,20 @@ class Fn:
         return text, ([t for _, t in params], rett)
 
 
-WANTED = [("normalize_path_segments", "(segments : list str) : list str", "[]"),
-          ("normalize_path", "(path : str) : str", "[]")]
+SOURCES = [
+    # (source file, output module, header imports, tables usable in "x in TABLE", functions with stub signatures)
+    ("_path.py", "PathGen", "From Yarl Require Export Base.PyStr.", (),
+     [("normalize_path_segments", "(segments : list str) : list str", "[]"),
+      ("normalize_path", "(path : str) : str", "[]")]),
+    ("_parse.py", "ParseGen", "From Yarl Require Export Base.PyStr Generated.Tables.", ("USES_AUTHORITY",),
+     [("unsplit_result", "(scheme netloc url query fragment : str) : str", "[]")]),
+]
 
 
-def generate(repo):
-    src = open(os.path.join(repo, "yarl", "_path.py")).read()
-    out = ["(* GENERATED by harness/gen_model.py from yarl/_path.py of the working tree on every run. DO NOT EDIT. *)",
-           "From Yarl Require Export Base.PyStr.", "Open Scope N_scope.", ""]
+def generate_one(repo, fname, header, tables, wanted):
+    src = open(os.path.join(repo, "yarl", fname)).read()
+    out = [f"(* GENERATED by harness/gen_model.py from yarl/{fname} of the working tree on every run. DO NOT EDIT. *)",
+           header, "Open Scope N_scope.", ""]
     errors = []
     try:
         tree = ast.parse(src)
@@ -283,11 +383,11 @@ def generate(repo):
         fds = {}
         errors.append("syntax error: " + str(e))
     known = {}
-    for name, sig, stub in WANTED:
+    for name, sig, stub in wanted:
         try:
             if name not in fds:
                 raise Untranslatable("function " + name + " not found")
-            text, ty = Fn(known).translate(fds[name])
+            text, ty = Fn(known, tables).translate(fds[name])
             known[name] = ty
             out.append(text)
         except Untranslatable as e:
@@ -298,8 +398,24 @@ def generate(repo):
     return "\n".join(out), errors
 
 
+def generate_all(repo):
+    """{module name: text}, [errors]"""
+    texts, errors = {}, []
+    for fname, mod, header, tables, wanted in SOURCES:
+        t, e = generate_one(repo, fname, header, tables, wanted)
+        texts[mod] = t
+        errors += [mod + ": " + x for x in e]
+    return texts, errors
+
+
+def generate(repo):
+    t, e = generate_one(repo, *[(x[0], x[2], x[3], x[4]) for x in SOURCES if x[1] == "PathGen"][0])
+    return t, e
+
+
 if __name__ == "__main__":
-    t, errs = generate(sys.argv[1] if len(sys.argv) > 1 else "/repo")
-    sys.stdout.write(t)
+    texts, errs = generate_all(sys.argv[1] if len(sys.argv) > 1 else "/repo")
+    for m, t in texts.items():
+        sys.stdout.write(t + "\n")
     for e in errs:
         sys.stderr.write("ERROR " + e + "\n")
